@@ -30,6 +30,9 @@ func checkC03(c *Check) {
 			c.disagree(&Disagreement{Kind: "opt-diff", Script: src, Expected: cls[1], Got: cls[0]})
 		}
 	}
+	// refinement inside the specification (EFVM on EFCompiler / EFOptimizer output against EFSemantics), and the
+	// model machine's instruction path against the real machine's
+	runRefine(c)
 	runExprRows(c, func(ops []string) bool {
 		// constant arithmetic, comparisons and roots: what the optimizer rewrites
 		for _, o := range ops {
